@@ -1169,4 +1169,5 @@ def verify(rep, prop, fn, spec, select=None, exclude=(), replay=None, fallback=N
                 if fb and fb.get('confirmed'): fb['note'] = 'the solver counter-model did not replay; failing input found by bounded native search guided by the failed obligation'; rp = fb
             o.replay = rp or dict(confirmed=False, inputs=mv)
         out.append(o); rep.add(o)
+    core.oracle_selfcheck(rep, fn, fallback, all(o.status == core.PROVED for o in out))
     return out
